@@ -481,3 +481,19 @@ Definition rstep (s : rstate) (tk : token) : rstate :=
 
 Definition reader (d : list token) : rstate := fold_left rstep d RBefore.
 Definition wellformed1 (d : list token) : bool := match reader d with RAfter => true | _ => false end.
+
+(* ---------------------------------------------------------------- how the XML parser is constructed
+   Row: (function, parser constructor, lax settings found: recover=..., **kwargs, html parser).  A strict parser
+   accepts exactly the well-formed single-rooted token streams; a recovering one also accepts a stream that
+   stops inside the root (libxml2 closes the open elements). *)
+Definition parser_row := (string * string * list string)%type.
+Definition parser_strict (t : list parser_row) : bool :=
+  match t with [] => false | _ => forallb (fun r : parser_row => match snd r with [] => true | _ => false end) t end.
+
+Definition accepts (recover : bool) (d : list token) : bool :=
+  match reader d with
+  | RAfter => true
+  | RInside _ => recover
+  | _ => false
+  end.
+
